@@ -90,6 +90,7 @@ def exc_where(exc):
 
 class World:
     symbolic = True
+    __symex_opaque__ = True
 
     def __init__(self, path, env_factory=None):
         self.p = path
